@@ -65,7 +65,7 @@ def main():
         for p in props:
             t0 = time.time()
             r = sh("cd %s && VERIF_REPO=%s VERIF_NO_EVIDENCE=1 VERIF_REPLAY_DIR=replays_mut ./check %s --tier %s" % (VERIF, WT, p, a.tier))
-            lines = [l for l in r.stdout.splitlines() if l.startswith(("VIOLATION", "OK ", "KNOWN-FINDING"))]
+            lines = sorted([l for l in r.stdout.splitlines() if l.startswith(("VIOLATION", "OK ", "KNOWN-FINDING"))], key=lambda l: not l.startswith("VIOLATION"))
             res["checks"][p] = {"exit": r.returncode, "verdict": lines[:3], "wall_s": round(time.time() - t0)}
             if a.first_catch and r.returncode == 1:
                 break
